@@ -8,6 +8,7 @@ import Rpft.Props.C07
 import Rpft.Lemmas.RowStar
 import Rpft.Lemmas.RowPos
 import Rpft.Lemmas.RowPerm
+import Rpft.Lemmas.RowLeaf
 set_option linter.unusedSimpArgs false
 set_option linter.unusedVariables false
 namespace Rpft.Props.C09
@@ -186,6 +187,87 @@ example :
         ("mainarg_message_text".toList, "hi; there".toList)] with
     | .ok a, .ok b => a == b
     | _, _ => false) = true := by decide +kernel
+
+/-! ### from the `*` forms to the indexed columns -/
+
+def edgesS : Str := "edges".toList
+
+/-- the header `edges.k.b` -/
+def idxKey (k : Nat) (b : Str) : Str := edgesS ++ '.' :: (printNat k ++ '.' :: b)
+
+/-- the sub-headers of an edge reachable through the short headers -/
+def edgeLeaves : List Str :=
+  ["from_".toList, "condition.value".toList, "condition.variable".toList, "condition.type".toList,
+   "condition.name".toList]
+
+theorem edgeLeaves_are_the_long_forms :
+    (flowBasicHeaders.filter (fun p => p.2.take 8 == "edges.*.".toList)).all
+      (fun p => edgeLeaves.contains (p.2.drop 8)) = true ∧
+    edgeLeaves.all (fun b => flowBasicHeaders.any (fun p => p.2 == "edges.*.".toList ++ b)) = true := by
+  decide +kernel
+
+theorem replace1_no_occ (c : Char) (r : Str) : ∀ (s : Str), c ∉ s → replace1 c r s = s
+  | [], _ => rfl
+  | x :: s, h => by
+    have hx : x ≠ c := fun e => h (by simp [e])
+    have ih := replace1_no_occ c r s (fun hm => h (List.mem_cons_of_mem _ hm))
+    simp only [replace1, List.flatMap_cons, hx, if_false] at ih ⊢
+    rw [ih]; rfl
+
+/-- replacing `*` by the index in `edges.*.b` -/
+theorem star_key (k : Nat) (b : Str) (hb : b ∈ edgeLeaves) :
+    replace1 '*' (printNat k) ("edges.*.".toList ++ b) = idxKey k b := by
+  have hnb : '*' ∉ b := by
+    simp only [edgeLeaves, List.mem_cons, List.not_mem_nil, or_false] at hb
+    rcases hb with rfl | rfl | rfl | rfl | rfl <;> decide
+  have h1 : ("edges.*.".toList ++ b) = "edges.".toList ++ ('*' :: ('.' :: b)) := rfl
+  rw [h1, Cell.replace1_append, replace1_no_occ _ _ "edges.".toList (by decide)]
+  have h2 := replace1_no_occ '*' (printNat k) ('.' :: b) (by
+    intro hm
+    simp only [List.mem_cons] at hm
+    rcases hm with h | h
+    · exact absurd h (by decide)
+    · exact hnb h)
+  have h3 : replace1 '*' (printNat k) ('*' :: '.' :: b) =
+      printNat k ++ replace1 '*' (printNat k) ('.' :: b) := by
+    simp [replace1, List.flatMap_cons]
+  rw [h3, h2]
+  simp [idxKey, edgesS]
+
+/-- **From `*` to indexed columns**: the `k`-th element `x` of a `*` column
+`edges.*.b` (what `from`, `condition`, `condition_var`, … expand to by `short_eq_long` and
+`asterisk_expand`) is assigned exactly like the cell `t` of the long-form column
+`edges.k.b`, for any cell text `t` that reads as `x` — the entries are string fields
+(`leafTy` computed on the T1-tied schema). -/
+theorem star_element_eq_indexed_cell (k : Nat) (b : Str) (hb : b ∈ edgeLeaves) (out : Tree)
+    (x t : Str) (h : parseAsString t = .ok x) :
+    parseEntry flowRowTy out (idxKey k b, Sum.inr (.atom x)) =
+    parseEntry flowRowTy out (idxKey k b, Sum.inl t) := by
+  apply parseEntry_star_eq_cell flowRowTy out _ x t h
+  have hbk : ∀ c ∈ b, keyChar c = true ∧ True := by
+    simp only [edgeLeaves, List.mem_cons, List.not_mem_nil, or_false] at hb
+    rcases hb with rfl | rfl | rfl | rfl | rfl <;> decide
+  have hkey : ∀ c ∈ idxKey k b, keyChar c = true := by
+    intro c hc
+    simp only [idxKey, List.mem_append, List.mem_cons] at hc
+    rcases hc with h | rfl | h | rfl | h
+    · revert c; decide
+    · decide
+    · exact printNat_keyChar k c h
+    · decide
+    · exact (hbk c h).1
+  rw [getFieldName_key _ hkey]
+  simp only [idxKey]
+  rw [splitDot_append edgesS _ (by decide), splitDot_append _ _ (printNat_no_dot k)]
+  intro lt hlt
+  simp only [edgeLeaves, List.mem_cons, List.not_mem_nil, or_false] at hb
+  rcases hb with rfl | rfl | rfl | rfl | rfl
+  all_goals
+    have : lt = Ty.str := by
+      have e : some lt = some Ty.str := hlt.symm.trans rfl
+      exact Option.some.inj e
+    subst this
+    rfl
 
 /-! ### positional vs keyword records -/
 
